@@ -126,6 +126,94 @@ def small_profiles(tier, seed, with_withdrawn=False, with_undeclared=False, max_
     return out
 
 
+def tie_rich_profiles(tier, seed):
+    "few ballots, equal multipliers, 4-6 candidates: many exact ties whose order flips between stages"
+    rng = random.Random(seed * 31 + 5)
+    out = []
+    for _ in range(250 if tier == 'quick' else 3000):
+        n = rng.randint(4, 6)
+        s = rng.randint(1, 3)
+        lines = []
+        for _i in range(rng.randint(n, 2 * n + 2)):
+            k = rng.randint(1, min(4, n))
+            lines.append((rng.choice([1, 1, 1, 2]), rng.sample(range(1, n + 1), k)))
+        tie = list(range(1, n + 1))
+        rng.shuffle(tie)
+        tot = sum(m for m, _ in lines)
+        if tot < n:
+            lines.append((n, [1]))
+        out.append(dict(ncand=n, nseats=min(s, n), lines=lines, withdrawn=(), undeclared=(), tie=tie))
+    return out
+
+
+def batch_profiles(tier, seed):
+    "more candidates and seats, skewed multipliers, many short ballots: pending surpluses next to sure losers"
+    rng = random.Random(seed * 17 + 3)
+    out = []
+    for _ in range(1200 if tier == 'quick' else 20000):
+        n = rng.randint(5, 8)
+        s = rng.randint(2, n - 1)
+        lines = []
+        for _i in range(rng.randint(n, 2 * n)):
+            k = rng.choice([1, 1, 2, 2, 3])
+            lines.append((rng.choice([1, 1, 2, 3, 8, 9, 28, 30]), rng.sample(range(1, n + 1), k)))
+        tot = sum(m for m, _ in lines)
+        if tot < n:
+            lines.append((n, [1]))
+        out.append(dict(ncand=n, nseats=s, lines=lines, withdrawn=(), undeclared=(), tie=None))
+    return out
+
+
+def eq_profiles(tier, seed):
+    "profiles with equal rankings (read by meek / warren only)"
+    rng = random.Random(seed * 13 + 1)
+    out = []
+    for _ in range(300 if tier == 'quick' else 5000):
+        n = rng.randint(3, 5)
+        s = rng.randint(1, n - 1)
+        lines = []
+        for _i in range(rng.randint(2, 6)):
+            perm = rng.sample(range(1, n + 1), rng.randint(1, n))
+            r = []
+            i = 0
+            while i < len(perm):
+                g = rng.choice([1, 1, 2, 3])
+                grp = perm[i:i + g]
+                r.append(tuple(grp) if len(grp) > 1 else grp[0])
+                i += g
+            lines.append((rng.choice([1, 2, 3, 7]), r))
+        tot = sum(m for m, _ in lines)
+        if tot < n:
+            lines.append((n, [1]))
+        out.append(dict(ncand=n, nseats=s, lines=lines, withdrawn=(), undeclared=(), tie=None))
+    return out
+
+
+def run_extra(res, profiles, rules, per_count, budget, opts_list=({},)):
+    t0 = time.time()
+    for p in profiles:
+        if time.time() - t0 > budget:
+            return
+        data = pdata(p)
+        for rule in rules:
+            for opts in opts_list:
+                try:
+                    E = counted(data, rule, opts)
+                except Timeout:
+                    res.skipped += 1
+                    continue
+                except (ElectionProfileError, UsageError):
+                    res.skipped += 1
+                    continue
+                except Exception as e:      # noqa
+                    res.evaluations += 1
+                    per_count(None, data, rule, opts, p, exc=e)
+                    continue
+                res.evaluations += 1
+                res.sig((rule, action_sig(E)))
+                per_count(E, data, rule, opts, p)
+
+
 def option_grid(rule, tier):
     if rule == 'wigm':
         g = [{}, {'arithmetic': 'fixed', 'precision': 4}, {'arithmetic': 'fixed', 'precision': 0},
@@ -160,7 +248,7 @@ def counted(data, rule, opts=None, budget=5):
 def pdata(p, **kw):
     d = dict(p)
     d.update(kw)
-    return blt(d['ncand'], d['nseats'], d['lines'], d.get('withdrawn', ()), d.get('undeclared', ()), d.get('tie'))
+    return blt(d['ncand'], d['nseats'], d['lines'], d.get('withdrawn', ()), d.get('undeclared', ()), d.get('tie'), names=d.get('names'))
 
 
 # ------------------------------------------------------------------------------------------ result bookkeeping
@@ -214,9 +302,11 @@ def tally_total(A):
 
 # ------------------------------------------------------------------------------------------ per-property monitors
 def run_counts(res, rules, tier, seed, per_count, with_withdrawn=True, with_undeclared=False, grid=True, max_n=None,
-               time_budget=None):
+               time_budget=None, mutate=None):
     "drive per_count(E, data, rule, opts, p) over the domain"
     profs = small_profiles(tier, seed, with_withdrawn, with_undeclared, max_n)
+    if mutate is not None:
+        profs = [mutate(dict(p)) for p in profs]
     budget = time_budget or (25 if tier == 'quick' else 600)
     t0 = time.time()
     rng = random.Random(seed + 1)
@@ -240,7 +330,7 @@ def run_counts(res, rules, tier, seed, per_count, with_withdrawn=True, with_unde
                 except (ElectionProfileError, UsageError):
                     res.skipped += 1
                     continue
-                except AssertionError as e:
+                except Exception as e:      # noqa  (AssertionError of postCheck, or any crash of the count)
                     res.evaluations += 1
                     per_count(None, data, rule, opts, p, exc=e)
                     continue
@@ -263,7 +353,7 @@ def check_C01(res):
 
     def per(E, data, rule, opts, p, exc=None):
         if exc is not None:
-            res.violation('count raised AssertionError (postCheck): %s %s' % (rule, opts), wit(data, rule, opts))
+            res.violation('count raised %s: %s %s' % (type(exc).__name__, rule, opts), wit(data, rule, opts))
             return
         elig = [c for c in E.C if c.state != 'withdrawn' and not (rule == 'mpls' and c.isUndeclared)]
         want = min(E.nSeats, len(elig))
@@ -280,6 +370,10 @@ def check_C01(res):
     # Minneapolis with undeclared write-ins (and write-in slots that are also withdrawn)
     run_counts(res, ['mpls'], res.tier, res.seed + 7, per, with_withdrawn=True, with_undeclared=True, grid=False,
                time_budget=8 if res.tier == 'quick' else 120)
+    run_extra(res, batch_profiles(res.tier, res.seed), ['wigm-prf-batch', 'cfer-batch', 'mpls', 'meek', 'wigm'], per,
+              12 if res.tier == 'quick' else 400, opts_list=({},))
+    run_extra(res, eq_profiles(res.tier, res.seed), ['meek', 'warren'], per, 6 if res.tier == 'quick' else 200,
+              opts_list=({}, {'arithmetic': 'fixed', 'precision': 6}))
 
 
 def check_C09(res):
@@ -288,7 +382,7 @@ def check_C09(res):
 
     def per(E, data, rule, opts, p, exc=None):
         if exc is not None:
-            res.violation('count raised AssertionError: %s %s' % (rule, opts), wit(data, rule, opts))
+            res.violation('count raised %s: %s %s' % (type(exc).__name__, rule, opts), wit(data, rule, opts))
             return
         prev = None
         acts = [a for a in E.erecord['actions'] if 'cstate' in a]
@@ -321,6 +415,8 @@ def check_C09(res):
     run_counts(res, RULES, res.tier, res.seed, per)
     run_counts(res, ['mpls'], res.tier, res.seed + 7, per, with_withdrawn=True, with_undeclared=True, grid=False,
                time_budget=8 if res.tier == 'quick' else 120)
+    run_extra(res, batch_profiles(res.tier, res.seed), ['wigm-prf-batch', 'cfer-batch', 'mpls', 'meek', 'wigm'], per,
+              12 if res.tier == 'quick' else 400)
 
 
 def units(E):
@@ -544,7 +640,45 @@ def check_C06(res):
                     res.sig((rule, action_sig(E)))
 
 
+def scottish_ties_factory(res):
+    def scottish_ties(E, data, rule, opts, p):
+        """Scottish order 49(2)(3) / 51(2): a tie is decided by the most recent earlier stage at which the tied candidates'
+        tallies give a unique lowest (exclusion) / highest (surplus); failing that by lot (the declared tie order)"""
+        acts = E.erecord['actions']
+        names = {c.name: c.cid for c in E.C}
+        tieorder = {c.cid: c.tieOrder for c in E.C}
+        stages = []     # candidate tallies saved at each 'round' action (what E.rounds holds)
+        for i, a in enumerate(acts):
+            if a['tag'] == 'round':
+                stages.append({cid: fr(c['vote']) for cid, c in a['cstate'].items() if c['state'] != 'withdrawn'})
+            if a['tag'] != 'tie':
+                continue
+            msg = a['msg']
+            try:
+                inside = msg[msg.index('[') + 1:msg.index(']')]
+                tied = [names[x.strip()] for x in inside.split(',')]
+                chosen = names[msg.rsplit('-> ', 1)[1].strip()]
+            except Exception:
+                continue
+            lowest = 'defeat' in msg
+            want = None
+            for stg in reversed(stages[:-1] if False else stages[:a['round']]):
+                vals = {c: stg[c] for c in tied}
+                ext = min(vals.values()) if lowest else max(vals.values())
+                cands = [c for c in tied if vals[c] == ext]
+                if len(cands) == 1:
+                    want = cands[0]
+                    break
+            if want is None:
+                want = min(tied, key=lambda c: tieorder[c])
+            if chosen != want:
+                res.violation('Scottish tie %r resolved for candidate %s; the most recent differing stage (else the lot) gives %s' % (msg[:70], chosen, want),
+                              wit(data, rule, opts))
+    return scottish_ties
+
+
 def check_C07(res):
+    scottish_ties = scottish_ties_factory(res)
     res.rule = ('every single exclusion is of a lowest hopeful (within surplus for meek family; lowest quotient for qpq); every tie among '
                 'the lowest is logged; a record without tie actions is unchanged under every tie order (n<=4); distinct = (rule, tags)')
 
@@ -586,6 +720,8 @@ def check_C07(res):
                         if not seen_tie:
                             res.violation('tie among lowest %s resolved without a tie action (%s %s)' % (tied, rule, opts), wit(data, rule, opts))
             prev = a
+        if rule == 'scotland':
+            scottish_ties(E, data, rule, opts, p)
         # tie-order independence when no tie is logged
         if not any(a['tag'] == 'tie' for a in acts) and p['ncand'] <= 4 and res.tier != 'quick' or \
                 (not any(a['tag'] == 'tie' for a in acts) and p['ncand'] <= 3):
@@ -600,6 +736,20 @@ def check_C07(res):
                     res.violation('no tie logged, yet the record changes with tie order %s (%s %s)' % (list(perm), rule, opts), wit(d2, rule, opts, {'base_blt': data}))
                     break
     run_counts(res, RULES, res.tier, res.seed, per, with_withdrawn=False)
+    # tie-rich domain for the tie procedures
+    t0 = time.time()
+    for p in tie_rich_profiles(res.tier, res.seed):
+        if time.time() - t0 > (12 if res.tier == 'quick' else 300):
+            break
+        data = pdata(p)
+        for rule in ('scotland', 'wigm', 'mpls', 'qpq', 'cfer', 'meek-prf'):
+            try:
+                E = counted(data, rule, {})
+            except Exception:
+                continue
+            res.evaluations += 1
+            res.sig((rule, action_sig(E)))
+            per(E, data, rule, {}, p)
 
 
 def check_C08(res):
@@ -659,6 +809,9 @@ def check_C08(res):
                     elif 'omega' in last_iter['msg'] and fr(last_iter['surplus']) > omega:
                         res.violation('iteration ended "omega" with surplus %s > omega %s' % (fr(last_iter['surplus']), omega), wit(data, rule, opts))
     run_counts(res, MEEK_FAMILY, res.tier, res.seed, per, with_withdrawn=False)
+    run_extra(res, eq_profiles(res.tier, res.seed), ['meek', 'warren'], per, 12 if res.tier == 'quick' else 300,
+              opts_list=({}, {'arithmetic': 'fixed', 'precision': 6}, {'arithmetic': 'guarded', 'precision': 6, 'guard': 0},
+                         {'arithmetic': 'fixed', 'precision': 4, 'omega': 2}))
 
 
 def check_C10(res):
@@ -767,7 +920,21 @@ def check_C11(res):
                   for a in E3.erecord['actions'] if 'cstate' in a]
             if a1 != a3 or t1 != t3:
                 res.violation('withdrawn %s is not the same as deleted (%s %s)' % (list(p['withdrawn']), rule, opts), wit(data, rule, opts, {'deleted_blt': d3}))
-    run_counts(res, RULES, res.tier, res.seed, per, with_withdrawn=True, grid=False, time_budget=40 if res.tier == 'quick' else 900)
+    run_counts(res, RULES, res.tier, res.seed, per, with_withdrawn=True, grid=False, time_budget=30 if res.tier == 'quick' else 900)
+    # tie-rich domain: exact ties are where candidate numbering can leak into the outcome
+    t0 = time.time()
+    for p in tie_rich_profiles('thorough', res.seed):
+        if time.time() - t0 > (20 if res.tier == 'quick' else 400):
+            break
+        data = pdata(p)
+        for rule in ('scotland', 'wigm', 'qpq'):
+            try:
+                E = counted(data, rule, {})
+            except Exception:
+                continue
+            res.evaluations += 1
+            res.sig((rule, action_sig(E)))
+            per(E, data, rule, {}, p)
 
 
 def check_C13(res):
